@@ -47,10 +47,11 @@ NUMPY = False   # when set (`numpy_numbers`), prices and volumes are handed over
 
 class numpy_numbers:
     def __init__(self, on):
-        self.on = bool(on)
+        self.on = on if on in ("mixed",) else bool(on)
 
     def __enter__(self):
         global NUMPY
+        _NP_TOGGLE[0] = 0
         self.old, NUMPY = NUMPY, self.on
         return self
 
@@ -69,12 +70,37 @@ def have_numpy():
         return False
 
 
+_NP_TOGGLE = [0]
+
+
 def np_row(t):
     if not NUMPY:
         return t
     import numpy as np
 
+    if NUMPY == "mixed":   # every other candle: a plain-float history with a numpy live feed, interleaved
+        _NP_TOGGLE[0] += 1
+        if _NP_TOGGLE[0] % 2:
+            return t
+
     return (t[0],) + tuple(np.float64(x) for x in t[1:6]) + tuple(t[6:])
+
+
+def pyval(v):
+    """numpy scalars that come back when numpy numbers went in, as the Python values they stand for (numpy.bool_ -> bool,
+    numpy.float64 -> float, numpy integers -> int); everything else unchanged, dicts field by field"""
+    if isinstance(v, dict):
+        return {k: pyval(x) for k, x in v.items()}
+    if type(v).__module__ == "numpy":
+        import numpy as np
+
+        if isinstance(v, np.bool_):
+            return bool(v)
+        if isinstance(v, np.floating):
+            return float(v)
+        if isinstance(v, np.integer):
+            return int(v)
+    return v
 
 
 def mk_candle(t):
